@@ -7,6 +7,7 @@ import (
 	"fmt"
 	"strings"
 	"sync"
+	"sync/atomic"
 
 	goelectrum "github.com/checksum0/go-electrum/electrum"
 	"github.com/elementsproject/peerswap/txwatcher"
@@ -78,6 +79,8 @@ type RpcFacade struct {
 	Hook func(call string) error
 	// StaleBest makes the next n gettxout answers carry the previous best block hash.
 	StaleBest int
+	// UnknownOutputs makes the next n gettxout answers null ("no such unspent output").
+	UnknownOutputs atomic.Int32
 
 	mu      sync.Mutex
 	seq     int64
@@ -155,6 +158,12 @@ func (f *RpcFacade) GetTxOut(txid string, vout uint32) (*txwatcher.TxOutResp, er
 	w.mu.Lock()
 	defer w.mu.Unlock()
 	f.stampLocked("gettxout")
+	if f.UnknownOutputs.Load() > 0 {
+		// the backend does not know the transaction right now (restarted with an empty mempool, a node behind a
+		// load balancer that has not seen it yet, the block just reorganised away): gettxout answers null
+		f.UnknownOutputs.Add(-1)
+		return nil, nil
+	}
 	tx := f.C.txs[txid]
 	if tx == nil || int(vout) >= len(tx.Outs) {
 		return nil, nil
